@@ -98,7 +98,8 @@ class AbstractExcelInPython(ABC):
     def _compare(self, operator: str, left_operand: str | int | float | datetime.date | datetime.datetime,
                           right_operand: str | int | float | datetime.date | datetime.datetime) -> bool:
         try:
-            return self._by_operator(operator, int(left_operand), int(right_operand))
+            return self._by_operator(operator, left_operand if isinstance(left_operand, float) else int(left_operand),
+                                     right_operand if isinstance(right_operand, float) else int(right_operand))
         except (ValueError, TypeError):
             try:
                 return self._by_operator(operator, float(left_operand), float(right_operand))
